@@ -276,6 +276,25 @@ func (s *InMemoryStore) UpdateOffsets(ctx context.Context, topic string, partiti
 	return nil
 }
 
+// validTopicName applies Kafka's topic name rules: 1-249 characters from
+// [a-zA-Z0-9._-], and not "." or "..". Topic names are embedded in S3 object
+// paths and etcd keys; separators, ':' or dot segments in a name would make two
+// topics (or a topic and another topic's partition) share objects and keys.
+func validTopicName(name string) bool {
+	if name == "" || len(name) > 249 || name == "." || name == ".." {
+		return false
+	}
+	for i := 0; i < len(name); i++ {
+		c := name[i]
+		switch {
+		case c >= 'a' && c <= 'z', c >= 'A' && c <= 'Z', c >= '0' && c <= '9', c == '.', c == '_', c == '-':
+		default:
+			return false
+		}
+	}
+	return true
+}
+
 func partitionKey(topic string, partition int32) string {
 	return fmt.Sprintf("%s:%d", topic, partition)
 }
@@ -297,6 +316,9 @@ func (s *InMemoryStore) CreateTopic(ctx context.Context, spec TopicSpec) (*proto
 	default:
 	}
 	if spec.Name == "" || spec.NumPartitions <= 0 {
+		return nil, ErrInvalidTopic
+	}
+	if !validTopicName(spec.Name) {
 		return nil, ErrInvalidTopic
 	}
 	if spec.ReplicationFactor <= 0 {
